@@ -17,11 +17,13 @@ Template directives (a line whose first non-blank characters are `//@`):
       //@loop <k>        following lines go between the k-th loop header and its `{`
       //@loopentry <k>   following lines go right after the k-th loop's `{`
       //@closure <k> <header>   header replaces `|params|` of the k-th closure; its body is braced
-      //@before <k> <token>     following lines go before the k-th occurrence of <token> (if that is
+      //@before <k> <token>     (//@before? = skip silently when the anchor is absent) following lines go before the k-th occurrence of <token> (if that is
                                 the expression of a match arm the arm gets braces)
       //@after <k> <token-seq ending a statement>  following lines go after the `;` that ends the
                                 statement containing the k-th occurrence of the token sequence
       //@no <Rn>         do not apply rewrite Rn in this function
+      //@assume          keep the real signature + the spliced contract, replace the body by
+                         unimplemented!() under #[verifier::external_body] (contract-only callee, listed as trusted)
   //@endfn
 
 Everything else is copied as is.  The rewrites R1.. applied to the verbatim text are the closed list
@@ -138,7 +140,7 @@ class RepoFile:
 
 
 # --------------------------------------------------------------------------------------------
-def strip_attrs_start(toks, item):
+def strip_attrs_start(toks, item, derives=None):
     """index of the first token of the item after doc comments and droppable attributes (R9).
     Returns (start_index, kept_attr_text)."""
     i = item["start"]
@@ -156,6 +158,9 @@ def strip_attrs_start(toks, item):
             a = L.norm(L.text(toks, i, e + 1))
             if not re.match(r"#\[(derive|inline|allow|doc|must_use|cfg_attr)\b", a):
                 raise Undecided("attribute %s not in the droppable list" % a)
+            m = re.match(r"#\[derive\((.*)\)\]", a)
+            if m and derives is not None:
+                derives.extend(x.strip() for x in m.group(1).split(","))
             i = e + 1
             continue
         break
@@ -380,7 +385,32 @@ def rw_R7(rf, a, b):
     return out
 
 
-REWRITES = {"R2": rw_R2, "R7": rw_R7, "R1": rw_R1, "R3": rw_R3, "R4": rw_R4, "R5": rw_R5, "R10": rw_R10, "R13": rw_R13, "R14": rw_R14}
+
+def rw_R15(rf, a, b):
+    """`use crate::...;` inside a function body -> removed (single-file unit: all extracted items are in one flat module)"""
+    toks, sg, out = rf.toks, _sig(rf.toks, a, b), []
+    for k, i in enumerate(sg):
+        if toks[i].text == "use" and k + 1 < len(sg) and toks[sg[k + 1]].text == "crate":
+            j = k
+            while toks[sg[j]].text != ";":
+                j += 1
+            out.append((Edit(i, sg[j] + 1, "", ("gen", "R15")), "R15 %s:%d `%s` removed (flat unit module)" % (rf.rel, toks[i].line, L.norm(L.text(toks, i, sg[j] + 1)))))
+    return out
+
+
+
+def rw_R2b(rf, a, b):
+    """Box<dyn ReadWrite + Send> (type position, not after `as`) -> VerifBoxedStream: Verus' trait-conflict checker
+    rejects `dyn ReadWrite` (supertraits Read + Write); the boxed stream is never inspected by the crate."""
+    toks, sg, out = rf.toks, _sig(rf.toks, a, b), []
+    words = ["Box", "<", "dyn", "ReadWrite", "+", "Send", ">"]
+    for k, i in enumerate(sg):
+        if _seq_at(toks, sg, k, words) and (k == 0 or toks[sg[k - 1]].text != "as"):
+            out.append((Edit(i, sg[k + len(words) - 1] + 1, "VerifBoxedStream", ("gen", "R2b")), "R2b %s:%d Box<dyn ReadWrite + Send> -> VerifBoxedStream" % (rf.rel, toks[i].line)))
+    return out
+
+
+REWRITES = {"R2b": rw_R2b, "R15": rw_R15, "R2": rw_R2, "R7": rw_R7, "R3": rw_R3, "R1": rw_R1, "R4": rw_R4, "R5": rw_R5, "R10": rw_R10, "R13": rw_R13, "R14": rw_R14}
 
 
 # --------------------------------------------------------------------------------------------
@@ -486,6 +516,8 @@ class FnSpec:
         self.before = []      # (k, token, lines)
         self.after = []
         self.no = set()
+        self.assume = False
+        self.wraptail = None
         self.tpl_line = 0
 
 
@@ -499,6 +531,7 @@ class Unit:
         self.trusted = []
         self.cur_impl = None
         self.includes = []
+        self.assumed = []
 
     # -- template parsing --
     def build(self, vacuity=False):
@@ -566,10 +599,30 @@ class Unit:
     def _item(self, rel, kw, name):
         rf = RepoFile.get(rel)
         it = rf.find_item(kw, name)
-        s = strip_attrs_start(rf.toks, it)
+        derives = []
+        s = strip_attrs_start(rf.toks, it, derives)
         self.out.nl()
         render(self.out, rf, s, it["end"], self._apply_rewrites(rf, s, it["end"]))
         self.out.nl()
+        # R9b: #[derive(Clone, PartialEq, Eq, Copy)] on a non-generic type -> explicit impls whose
+        # contracts state what the derive macro generates (structural equality / an equal copy).
+        sg = _sig(rf.toks, it["kw_idx"], it["end"])
+        generic = rf.toks[sg[2]].text == "<"
+        if derives and not generic and kw in ("struct", "enum"):
+            g = []
+            if "Clone" in derives:
+                g.append("impl Clone for %s { #[verifier::external_body] fn clone(&self) -> (r: %s) ensures r == *self { unimplemented!() } }" % (name, name))
+            if "Copy" in derives:
+                g.append("impl Copy for %s {}" % name)
+            if "PartialEq" in derives:
+                g.append("impl PartialEq for %s { #[verifier::external_body] fn eq(&self, other: &%s) -> (r: bool) ensures r == (*self == *other) { unimplemented!() } }" % (name, name))
+            if "Eq" in derives and "PartialEq" in derives:
+                g.append("impl Eq for %s {}" % name)
+            if g:
+                self.out.emit("\n".join(g) + "\n", ("gen", "R9b"))
+                self.rewrites.append("R9b %s: #[derive(%s)] on %s -> explicit impls with assumed derive semantics (%s)" % (rel, ", ".join(derives), name, ", ".join(x for x in derives if x in ("Clone", "Copy", "PartialEq", "Eq"))))
+        elif derives:
+            self.rewrites.append("R9 %s: #[derive(%s)] on %s dropped" % (rel, ", ".join(derives), name))
 
     def _impl(self, rel, sub, inherent):
         rf = RepoFile.get(rel)
@@ -642,14 +695,20 @@ class Unit:
                 elif c == "closure":
                     fs.closures[int(d[1])] = (d[2], lno)
                     cur = None
-                elif c == "before":
+                elif c in ("before", "before?"):
                     cur = []
-                    fs.before.append((int(d[1]), d[2], cur))
+                    fs.before.append((int(d[1]), d[2] + (" ?optional" if c.endswith("?") else ""), cur))
                 elif c == "after":
                     cur = []
                     fs.after.append((int(d[1]), d[2], cur))
                 elif c == "no":
                     fs.no.add(d[1])
+                elif c == "assume":
+                    fs.assume = True
+                    cur = None
+                elif c == "wraptail":
+                    fs.wraptail = d[1]
+                    cur = None
                 else:
                     raise Undecided("unknown fn sub-directive %s at %s:%d" % (c, relname, lno))
             else:
@@ -680,6 +739,19 @@ class Unit:
         start = strip_attrs_start(toks, it)
         bo, be = it["body_open"], it["end"] - 1  # `{` and `}` indices
         edits = self._apply_rewrites(rf, start, it["end"], fs.no)
+
+        # R17: `mut self` receiver -> `self` + `let mut __self = self;` with the body's `self` renamed
+        sgh = _sig(toks, it["kw_idx"], bo)
+        r17 = False
+        for k, i in enumerate(sgh):
+            if toks[i].text == "mut" and toks[sgh[k + 1]].text == "self" and toks[sgh[k - 1]].text == "(":
+                edits.append(Edit(i, sgh[k + 1], "", ("gen", "R17")))
+                r17 = True
+                self.rewrites.append("R17 %s:%d `mut self` receiver of %s -> `self` + `let mut __self = self;`" % (rf.rel, toks[i].line, qual))
+        if r17 and not fs.assume:
+            for i in _sig(toks, bo + 1, be):
+                if toks[i].kind == "ident" and toks[i].text == "self":
+                    edits.append(Edit(i, i + 1, "__self", ("gen", "R17")))
 
         def tpl_text(lines):
             return "".join(l + "\n" for l, _ in lines)
@@ -730,6 +802,8 @@ class Unit:
         entry_txt = tpl_text(fs.entry)
         if self.vacuity:
             entry_txt = "proof { assert(false); } // VACUITY-PROBE\n" + entry_txt
+        if r17:
+            entry_txt = "let mut __self = self;\n" + entry_txt
         if entry_txt:
             edits.append(Edit(bo + 1, bo + 1, "\n" + entry_txt, ("tpl", relname, (fs.entry[0][1] - 1) if fs.entry else fs.tpl_line)))
         if fs.exit:
@@ -764,7 +838,12 @@ class Unit:
         sgb = _sig(toks, bo + 1, be)
         for k, tok, lines in fs.before:
             words = tok.split()
+            optional = words[-1] == "?optional"
+            if optional:
+                words = words[:-1]
             occ = [x for x in range(len(sgb)) if _seq_at(toks, sgb, x, words)]
+            if optional and (k < 1 or k > len(occ)):
+                continue   # the guarded statement is gone: the function's ensures still stand
             if k < 1 or k > len(occ):
                 raise Undecided("lost anchor: occurrence %d of `%s` in %s (%d found)" % (k, tok, qual, len(occ)))
             x = occ[k - 1]
@@ -819,6 +898,41 @@ class Unit:
                 raise Undecided("statement end not found after `%s` in %s" % (tok, qual))
             edits.append(Edit(e + 1, e + 1, "\n" + tpl_text(lines), ("tpl", relname, lines[0][1] - 1)))
 
+        if fs.wraptail:
+            # R16: wrap the tail expression of the body in a same-body wrapper call
+            sgt = _sig(toks, bo + 1, be)
+            depth = 0
+            last = None
+            for x, i in enumerate(sgt):
+                tx = toks[i].text
+                if toks[i].kind == "punct":
+                    if tx in "([{":
+                        depth += 1
+                    elif tx in ")]}":
+                        depth -= 1
+                        if depth == 0 and tx == "}":
+                            last = x
+                    elif tx == ";" and depth == 0:
+                        last = x
+            ts = sgt[last + 1] if last is not None else sgt[0]
+            if last is not None and last + 1 >= len(sgt):
+                raise Undecided("%s has no tail expression to wrap" % qual)
+            te = be
+            while toks[te - 1].kind in ("ws", "comment"):
+                te -= 1
+            edits.append(Edit(ts, ts, fs.wraptail + "(", ("gen", "R16")))
+            edits.append(Edit(te, te, ")", ("gen", "R16")))
+            self.rewrites.append("R16 %s:%d tail expression of %s wrapped in %s(..)" % (rf.rel, toks[ts].line, qual, fs.wraptail))
+        if fs.assume:
+            # contract-only callee: the REAL signature, the body replaced; listed as trusted
+            edits = [e for e in edits if e.b <= bo]
+            edits.append(Edit(bo, be + 1, "{ unimplemented!() }", ("gen", "assume")))
+            self.assumed.append("%s (%s:%d): body not verified in this unit, contract assumed" % (qual, rf.rel, toks[it["kw_idx"]].line))
+            self.out.nl()
+            self.out.emit("#[verifier::external_body]\n", ("gen", "assume"))
+            render(self.out, rf, start, it["end"], edits)
+            self.out.nl()
+            return
         self.out.nl()
         first = len(self.out.lines)
         render(self.out, rf, start, it["end"], edits)
